@@ -102,7 +102,7 @@ func depWorld(seed uint64, name string) *spec.World {
 		{Name: "ItemList", Fields: []*spec.Field{{Name: "items", Number: 1, Kind: "message", TypeName: fq("Item"), Card: "repeated", Unwrap: true}}},
 		{Name: "Event", Oneofs: []*spec.Oneof{{Name: "body", HasConfig: true, Discriminator: "kind", Flatten: true}}, Fields: []*spec.Field{
 			{Name: "id", Number: 1, Kind: "string"},
-			{Name: "note_v", Number: 2, Kind: "message", TypeName: fq("Note"), Oneof: "body", OneofValue: sp("note")},
+			{Name: "note_v", Number: 2, Kind: "message", TypeName: fq("Note"), Oneof: "body", OneofValue: sp("text/plain")},
 			{Name: "item_v", Number: 3, Kind: "message", TypeName: fq("Item"), Oneof: "body", OneofValue: sp("item")}}},
 		{Name: "Big", Fields: []*spec.Field{{Name: "n", Number: 1, Kind: "int64", Int64Encoding: "NUMBER"}}},
 	}}
@@ -120,6 +120,14 @@ func depWorld(seed uint64, name string) *spec.World {
 				{Name: "groups", Number: 2, Kind: "message", TypeName: fq("ItemList"), Card: "map", MapKey: "string"}}}
 			f.Messages = append(f.Messages, req, resp)
 			m := &spec.Method{Name: mn, In: fq(req.Name), Out: fq(resp.Name), HasConfig: true, Verb: v, Path: "/" + strings.ToLower(mn)}
+			if file == "audit.proto" && i == 0 {
+				// only this file binds fields to the URL: whatever that requires (imports, helpers)
+				// belongs to its outputs alone
+				req.Fields = append(req.Fields,
+					&spec.Field{Name: "tenant", Number: 4, Kind: "string"},
+					&spec.Field{Name: "page", Number: 5, Kind: "int32", Query: &spec.Query{Name: "page"}})
+				m.Path = "/" + strings.ToLower(mn) + "/{tenant}"
+			}
 			if i == 0 {
 				m.Headers = []*spec.Header{{Name: "x-api-key", Type: "string", Format: "uuid", Required: seed%3 != 0}}
 			}
